@@ -144,32 +144,28 @@ theorem C14_claim_once (claimed : List Nat) (id : Nat) (hid : id ∈ claimed) :
       obtain ⟨c, ps⟩ := r
       exact claimBatch_mono batch claimed c ps hb id hid
 
-/-- **C14 (minted amount and split).** For a reported amount with `⌊amount/10^12⌋ < 2^63` and a tip with
-`⌊tip/10^12⌋ ≤ ⌊amount/10^12⌋`, a successful claim mints exactly `⌊amount/10^12⌋`, pays `⌊tip/10^12⌋` to the
+/-- **C14 (minted amount and split).** For every reported amount (no size bound since the fix of the `Int64()` conversion) and a
+tip with `⌊tip/10^12⌋ ≤ ⌊amount/10^12⌋`, a successful claim mints exactly `⌊amount/10^12⌋`, pays `⌊tip/10^12⌋` to the
 claimer and the rest to the reported recipient. -/
 theorem C14_mint_amount (claimed : List Nat) (x : ClaimIn) (c' : List Nat) (p : Payout) (d : Decoded)
     (h : claim claimed x = .ok (c', p)) (hd : x.decoded = some d)
-    (hsmall : d.amount / 1000000000000 < 9223372036854775808) (htip : d.tip / 1000000000000 ≤ d.amount / 1000000000000) :
+    (htip : d.tip / 1000000000000 ≤ d.amount / 1000000000000) :
     p.minted = d.amount / 1000000000000 ∧ p.toClaimer = d.tip / 1000000000000 ∧ p.toClaimer + p.toRecipient = p.minted := by
-  have hA : int64Of (d.amount / 1000000000000) = ((d.amount / 1000000000000 : Nat) : Int) := by
-    unfold int64Of; simp only []; split <;> omega
-  have hT : int64Of (d.tip / 1000000000000) = ((d.tip / 1000000000000 : Nat) : Int) := by
-    unfold int64Of; simp only []; split <;> omega
   unfold claim at h
   cases hagg : x.agg with
   | none => simp [hagg] at h
   | some agg =>
-    simp only [hagg, hd, hA, hT] at h
+    simp only [hagg, hd] at h
     repeat' split at h
     all_goals first
       | (simp at h; done)
       | (injection h with e; injection e with _ e2; subst e2; simp only []; omega)
 
-/-- **C14 (counterexample, recorded finding `deposit-int64-wrap`).** `DecodeDepositReportValue` converts
-`⌊amount/10^12⌋` with `big.Int.Int64()`: for a reported amount of (2^64 + 5)·10^12 the claim succeeds and mints 5. -/
+/-- **C14 (counterexample before the fix).** `DecodeDepositReportValue` converted `⌊amount/10^12⌋` with `big.Int.Int64()`: for a
+reported amount of (2^64 + 5)·10^12 the claim succeeded and minted 5. -/
 theorem C14_mint_wrap_counterexample :
-    claim [] { depositId := 1, agg := some ⟨false, 0, 10⟩, threshold := some 5, nowNs := 50000000000000,
-               decoded := some ⟨true, 18446744073709551621000000000000, 0⟩ } =
+    claimOld [] { depositId := 1, agg := some ⟨false, 0, 10⟩, threshold := some 5, nowNs := 50000000000000,
+                  decoded := some ⟨true, 18446744073709551621000000000000, 0⟩ } =
       .ok ([1], { minted := 5, toClaimer := 0, toRecipient := 5 }) := by rfl
 
 /-- **C14 (withdrawal).** A withdrawal reduces the supply by exactly the requested amount and takes a fresh id,
